@@ -62,6 +62,11 @@ CHECKS = {
          "Mailboxes of 0-16 generated messages (flags, keywords, \\Recent vs old, sizes, internal dates at day edges, Date headers in several zones, address/subject/X-Tag headers present, absent, empty, folded; body words). The observer's view is read with FETCH (UID, FLAGS, RFC822.SIZE, INTERNALDATE), also after other sessions changed it. ~50 random expressions per mailbox over all RFC 3501 keys with NOT/OR/lists to depth 3 and 1-3 juxtaposed keys (optional CHARSET): SEARCH must return exactly the ascending sequence numbers the evaluator selects, UID SEARCH the UIDs of the same messages; NOT = complement, OR = union, (a b) = intersection checked on the server's answers.",
          "Internal dates are given in UTC; SENT* compares the date of the Date header as written. Sequence/UID sets that RFC 3501 lets fail or that the property does not judge (n:* above the highest UID) are not generated inside expressions (C16 covers sets).",
          "DESIGN.md §4 C15"),
+ "C17": ("exploration",
+         "online invariant monitor with small configured limits: fresh views and LIST after every step (bounds), before/after comparison for refused operations (no partial effect), count model for 'fits => accepted'; concurrent phase against a nearly full mailbox and the mailbox limit",
+         "Servers with 4-8 mailboxes / 2-6 messages per mailbox / highest UID 6-16. Histories of CREATE with implicit parents, RENAME onto deep names, DELETE, APPEND, COPY/MOVE of 1-4 messages (UID forms too), EXPUNGE, connector MessagesCreated (1-4 messages, 1-2 mailboxes), MessageMailboxesUpdated, MailboxCreated; then 3-8 sessions APPEND/COPY into a nearly full mailbox and CREATE deep names at once. After every step: mailboxes, messages per mailbox and UIDs within the maxima; a refused operation left every mailbox and the mailbox list unchanged; an operation that fits by the counts before it was accepted.",
+         "The hidden recovery mailbox is not counted for the bound (it is for 'fits'); the UID maximum is exclusive for 'fits' as gluon's own suite asserts. What the remote was told by a command that was then refused is undone in the harness connector (gluon calls the connector before its own check).",
+         "DESIGN.md §4 C17"),
  "C16": ("exploration",
          "reference resolver monitor: generated message sets (hostile magnitudes, both range orders, '*', unions) against views with UID gaps; selected messages / BAD+no-effect compared with an RFC 3501 set resolver; exhaustive small-n table in thorough",
          "Runs the real server and, for views of 0-12 messages with UID gaps, issues FETCH/STORE/COPY/MOVE/SEARCH/UID EXPUNGE (sequence and UID forms) with generated sets whose numbers include 0, n+1, 2^31+-1, 2^32+-1, 2^32+k, 2^63+-1, 2^64+k, 10^30; the messages actually affected (rows returned, flags set, messages copied/moved/expunged, search results) must equal what an independent resolver computes, an invalid sequence number must give BAD and leave source and destination unchanged. Thorough adds all sets of <=2 ranges over {1..n+2,*} for n<=4.",
